@@ -22,7 +22,8 @@ ROOT = os.path.abspath(os.path.join(os.path.dirname(__file__), "..", ".."))
 COQ = os.path.join(ROOT, "coq")
 HARNESS = os.path.join(ROOT, "harness")
 WORK = os.path.join(ROOT, ".work")
-REPO = "/repo"
+REPO = os.environ.get("VERIF_REPO", "/repo")
+ALT = REPO != "/repo"  # mutation testing against a scratch worktree: private coq tree + modfile, /repo untouched
 
 FORBIDDEN = re.compile(
     r"\b(Admitted|admit|Axiom|Axioms|Parameter|Parameters|Conjecture|Conjectures|Admit Obligations|"
@@ -38,6 +39,7 @@ def goenv():
     e.setdefault("GOTOOLCHAIN", "auto")
     if e.get("GOTOOLCHAIN") == "local":
         e["GOTOOLCHAIN"] = "auto"
+    e["VERIF_REPO"] = REPO
     return e
 
 
@@ -218,6 +220,16 @@ def assumptions(cfg, work, log):
 
 def harness_build(cfg, work, log):
     binp = os.path.join(HARNESS, "bin", cfg["harness"])
+    if ALT:
+        binp = os.path.join(work, "bin_" + cfg["harness"])
+        mod = open(os.path.join(HARNESS, "go.mod")).read().replace("=> /repo", "=> " + REPO)
+        with open(os.path.join(work, "alt.mod"), "w") as f:
+            f.write(mod)
+        shutil.copyfile(os.path.join(REPO, "go.sum"), os.path.join(work, "alt.sum"))
+        rc, out, dt = sh(["go", "build", "-modfile", os.path.join(work, "alt.mod"), "-tags", "verif", "-o", binp,
+                          "./cmd/" + cfg["harness"]], cwd=HARNESS, timeout=900, env=goenv())
+        log.append("== go build alt (%.1fs) ==\n%s" % (dt, out[-4000:]))
+        return rc == 0, binp, out
     with Lock("go"):
         try:
             shutil.copyfile(os.path.join(REPO, "go.sum"), os.path.join(HARNESS, "go.sum"))
@@ -277,9 +289,10 @@ def match_known(known, pid, key):
 
 
 def write_replay(pid, payload):
-    os.makedirs(os.path.join(ROOT, "replays"), exist_ok=True)
+    rdir = os.path.join(WORK, pid + "_alt", "replays") if ALT else os.path.join(ROOT, "replays")
+    os.makedirs(rdir, exist_ok=True)
     h = hashlib.sha256(json.dumps(payload, sort_keys=True, default=str).encode()).hexdigest()[:10]
-    path = os.path.join(ROOT, "replays", "%s_%s.json" % (pid, h))
+    path = os.path.join(rdir, "%s_%s.json" % (pid, h))
     with open(path, "w") as f:
         json.dump(payload, f, indent=1, default=str)
     return path
@@ -289,11 +302,17 @@ def run_check(pid, tier, seed, replay=None):
     t0 = time.time()
     cfg = load_cfg(pid)
     known = load_known()
-    work = os.path.join(WORK, pid)
+    work = os.path.join(WORK, pid + ("_alt" if ALT else ""))
     shutil.rmtree(work, ignore_errors=True)
     os.makedirs(work, exist_ok=True)
     log = []
     broken = []  # reasons the proof/tie no longer checks
+    global COQ
+    if ALT:
+        alt = os.path.join(work, "coq")
+        sh(["rsync", "-a", "--exclude", "cases", os.path.join(ROOT, "coq") + "/", alt + "/"], timeout=600)
+        COQ = alt
+        os.environ["VERIF_GEN_OUT"] = os.path.join(alt, "theories", "gen")
 
     gen_ok, gen_msg = regenerate(log)
     if not gen_ok:
@@ -484,7 +503,7 @@ def run_check(pid, tier, seed, replay=None):
         "violations": violations,
     }
     os.makedirs(os.path.join(ROOT, "evidence"), exist_ok=True)
-    with open(os.path.join(ROOT, "evidence", pid + ".json"), "w") as f:
+    with open(os.path.join(work, "evidence.json") if ALT else os.path.join(ROOT, "evidence", pid + ".json"), "w") as f:
         json.dump(evidence, f, indent=1, default=str)
     with open(os.path.join(work, "log.txt"), "w") as f:
         f.write("\n".join(log))
